@@ -116,7 +116,9 @@ CLAIMED = {
               'NORM-NONNEG: scalar, AVX2 and SSE4.1 position-normalisation kernels all store max(p,o)-o (>= 0, 0 when p <= o). '
               'TWIN-SLICES: in every configuration the match-extension helper compares two slices of one common length whose '
               'logical part is limit - current_len. ASM-DISPATCH: the clamping assembly path of decode_direct_bits is only '
-              'entered when the bytes it can consume are left, so it never reaches the point where it differs from the portable loop.',
+              'entered when the bytes it can consume are left (a comparison involving the bit count), so it never reaches the point '
+              'where it differs from the portable loop. ALIGNED-LEN-USE: the rounded-up length of the over-aligned tables is only '
+              'compared, never used as a value.',
               'instruction-level equivalence of the assembly and the word-at-a-time comparators with their portable twins, '
               'std/no_std error kinds (semantic equivalence of numeric code needs execution or a solver).'),
     'C15': _c('static: who-may-be-unsafe confinement + per-site bounds obligations on provenance',
@@ -134,9 +136,11 @@ CLAIMED = {
               'KIB-UNITS over the estimator call tree, LIMIT-BEFORE-ALLOC (limit test dominates every allocating call and is computed '
               'from the very parameters the reader is built with), INT-OVF-EST, ESTIMATE-TWIN (per estimated type: bytes allocated '
               'by the constructor, as a linear form over its size parameters with element sizes from the layout, are dominated '
-              'term by term by the estimator formula; sub-objects have their estimator called).',
+              'term by term by the estimator formula, accumulator estimators included; sub-objects have their estimator called), '
+              'EST-SELECTOR (match-finder / mode selectors are passed through the estimator chain, never replaced by a constant), '
+              'SINGLE-ENCODER (a writer never holds two encoders at once; reports LZMA2Writer::start_independent_chunk as a known finding).',
               'allocations made after construction (growth of vectors at run time), allocator overhead, the "within a constant '
-              'factor" upper side; LZMAEncoder::get_mem_usage itself (mode dispatch through a reassigned local).'),
+              'factor" upper side.'),
     'C18': _c('static: provenance of the slice handed to the current unit; dominance of size checks',
               'UNIT-CLAMP (4 writers), EXPECTED-SIZE (LZMAWriter declared size), OPT-CLAMP (unit-size options raised to the '
               'dictionary size, never lowered below it).',
